@@ -23,6 +23,8 @@ state.
   and its listing entry intact; `isolation_reads` adds the `cell.monitors` indirection under the
   explicit D18 exclusion.
 * `listings_exact`, `no_dangling_handle`.
+* `alias_same_layer` (repair D36): the pool's alias search never crosses layers;
+  `cross_layer_alias_old_rule` is the negation witness for the rule before the repair.
 -/
 namespace InfernoVerif.Lifecycle
 
@@ -48,7 +50,7 @@ theorem exec_cons (s : State) (op : Op) (ops : List Op) : exec s (op :: ops) = e
 /-- Every reachable state satisfies the structural invariant `WF`: handle consistency, pool
 consistency ("registered iff the trainer is training"), and "every alive monitor is held by its
 alive owner's pool". -/
-theorem reachable_wf (topo : List (Nat × Nat × Nat)) (ops : List Op) (f : Bool := false) :
+theorem reachable_wf (topo : List (Nat × Nat × Nat)) (ops : List Op) (f : Bool := true) :
     WF (exec (init topo f) ops) :=
   exec_wf topo ops f
 
@@ -362,6 +364,65 @@ theorem no_dangling_handle (topo : List (Nat × Nat × Nat)) (ops : List Op) :
 --   (`no_dangling_handle` gives the two inclusions and uniqueness of ids; the cardinality argument — a
 --   permutation between the hook list and the disjoint union of the pools — is not carried out.)
 -/
+
+/-! ## Layers (D36) -/
+
+/-- **alias_same_layer** (the repaired rule, D36): whenever the pool search of `add_monitor` returns
+an alias for a monitor of cell `cell`, that monitor is held — under the same name — by the group of
+an observable of the same trainer that belongs to the SAME layer as `cell`.  Aliasing never crosses
+layers. -/
+theorem alias_same_layer (s : State) (hf : s.layerFilter = true) (T : Trainer) (cell mname tags : Nat)
+    (path : Path) (mid : Nat) (h : findAlias s T cell mname tags path = some mid) :
+    AliasSource s T cell mname mid :=
+  findAlias_go_same_layer s hf T cell mname tags path T.cells (fun _ h => h) none (by simp) mid h
+
+/-- the repair switch and the topology are constants of a history: every state reachable from
+`init topo true` runs the repaired rule -/
+theorem reachable_layerFilter (topo : List (Nat × Nat × Nat)) (f : Bool) (ops : List Op) :
+    (exec (init topo f) ops).layerFilter = f ∧ (exec (init topo f) ops).topo = topo := by
+  have := static_exec ops (init topo f)
+  exact ⟨this.filter, this.topo⟩
+
+/-- `alias_same_layer` in every reachable state of the repaired machine -/
+theorem alias_same_layer_reachable (topo : List (Nat × Nat × Nat)) (ops : List Op) (T : Trainer)
+    (cell mname tags : Nat) (path : Path) (mid : Nat)
+    (h : findAlias (exec (init topo true) ops) T cell mname tags path = some mid) :
+    AliasSource (exec (init topo true) ops) T cell mname mid :=
+  alias_same_layer _ (reachable_layerFilter topo true ops).1 T cell mname tags path mid h
+
+/-- two layers whose only connection and neuron carry the same names -/
+def topoXL : List (Nat × Nat × Nat) := [(0, 0, 0), (1, 0, 0)]
+
+/-- one STDP-like trainer registers a cell of each layer -/
+def xlprog : List Op := [.newTrainer 0, .registerCell 0 0 0 0, .registerCell 0 1 1 0]
+
+/-- **cross_layer_alias_old_rule** (D36, negation witness for the rule before the repair): with the
+vacuous layer test, the second layer's cell is handed the first layer's four monitors — no hook is
+registered with layer 1, a step of layer 1 records nothing for its cell, a step of layer 0 records
+into the monitors listed for layer 1's cell.  With the repaired rule each cell gets monitors on its
+own layer and each layer step feeds exactly its own cell's monitors. -/
+theorem cross_layer_alias_old_rule :
+    -- old rule: cell 1 (layer 1) is listed with monitors 0–3, all constructed on layer 0
+    (namedMonitors ((exec (init topoXL false) xlprog).trainers 0)).map (·.2) = [0, 1, 2, 3, 0, 1, 2, 3] ∧
+    (layerHooks (exec (init topoXL false) xlprog) 1).length = 0 ∧
+    ((exec (init topoXL false) (xlprog ++ [.layerStep 1])).mons 0).count = 0 ∧
+    ((exec (init topoXL false) (xlprog ++ [.layerStep 0])).mons 0).count = 1 ∧
+    -- repaired rule: eight monitors, four per layer, each fed by its own layer only
+    (namedMonitors ((exec (init topoXL true) xlprog).trainers 0)).map (·.2) = [0, 1, 2, 3, 4, 5, 6, 7] ∧
+    (layerHooks (exec (init topoXL true) xlprog) 1).length = 4 ∧
+    ((exec (init topoXL true) (xlprog ++ [.layerStep 1])).mons 4).count = 1 ∧
+    ((exec (init topoXL true) (xlprog ++ [.layerStep 1])).mons 0).count = 0 ∧
+    ((exec (init topoXL true) xlprog).mons 4).layer = 1 := by decide
+
+-- FULL STATEMENT (unproved): layer_ok
+--   ∀ topo ops t n c g e, let s := exec (init topo true) ops;
+--     (s.trainers t).alive → lookup (s.trainers t).cells n = some c → lookup (s.trainers t).groups n = some g →
+--     e ∈ g → (s.mons e.2).layer = cellLayer s c
+--   (every monitor listed for a cell is constructed on, and registers with, that cell's layer — the
+--   invariant behind the S-field `L<layer>` of the correspondence check.  `alias_same_layer` is its
+--   induction step for aliased monitors and a fresh monitor gets `cellLayer s cell` by construction;
+--   missing: uniqueness of cell names in `cells` and the group-key lemmas needed to carry the
+--   invariant through registerCell / delCell / addMonitor / delMonitor.)
 
 /-! ## D18: the exclusion that cannot be dropped (negation witnesses by `decide`) -/
 
